@@ -329,13 +329,20 @@ def clauses(tier, seed):
       Clause('numeric:step filters compose over time, adapters, finiteness on padded layouts', 'numeric', fns + sfn, run_step_filters, replay=replay_filter, group='jax-c', heavy=True),
       Clause('numeric:array-valued strengths act slice by slice', 'numeric', fns, run_array_parameters, group='jax-a', heavy=True),
       Clause('enum:leaf shapes and _preserves_shape vs broadcasting rule', 'enum', fns, run_leaf_shapes, group='jax-a', heavy=True),
-  ]
+  ] + _pyvc_clauses()
+
+
+def _pyvc_clauses():
+  from contracts import filter_contracts
+  return filter_contracts.clauses()
 
 
 MANIFEST = {
-    'engine': 'jxa+symx',
-    'technique': 'contract-based: linearity proved on the traced program, Robert-Asselin executed on symbolic leaves (exact); diagonal-matrix / formula / semigroup identities on complete bases over an enumerated parameter grid',
-    'text': ('other: complete over states (linearity proved, then full matrices), exact for Robert-Asselin (all r), bounded over the parameter grid and '
-             'grid layouts; exhaustive over small leaf shapes for the broadcasting rule.'),
+    'engine': 'pyvc+jxa+symx',
+    'technique': ('contract-based deductive: VCs from the real source of the filter factories in elementwise mode (range, mean, monotonicity, documented formula, '
+                  'half-step semigroup, adapters; z3 with exp/pow axioms); linearity proved on the traced program, Robert-Asselin executed on symbolic leaves (exact); '
+                  'diagonal-matrix identities on complete bases over an enumerated parameter grid (bounded twins)'),
+    'text': ('other: filter factors are proved for all wavenumbers and parameters from the source (reals, A9 axioms); linearity per configuration; exact for Robert-Asselin '
+             '(all r); the leaf-selection rule (_preserves_shape) and array-valued parameters are bounded (enumerated shapes / parameter grid).'),
     'note': 'trusted: A1/A2; numpy broadcasting rule as specified in _broadcast_compatible; jxa rules; sympy.',
 }
